@@ -172,15 +172,24 @@ func c15Run(c *Ctx) {
 		"%", "100%", "%d %s %v", "%!(NOVERB)", "50% off", "%%", "a%20b", "\u09ac\u09df\u09b8",
 		// characters that are invisible or only shape their neighbours are characters of the string all the same
 		"\u09b0\u200d\u09cd\u09af", "\u0995\u09cd\u200c\u0995", "shelf\u200cful", "\u200d", "\u200c\u200c", "a\u200bb", "\ufeffx", "x\ufeff", "x\u00ady", "a\u00a0b", "a\u2060b", "tab\there",
-		"a\u200e\u200fb", "x\ufe0f", "\u2764\ufe0e", "a\u034fb", "\u061c", "\u180e", "a\u2028b", "a\u0085b", "a\x7fb", "a\x01b", "a\rb", " lead", "trail ", "  ", "\u3000", "a\u2009b", "\U000e0001", "\U0001f468\u200d\U0001f469"}
+		"a\u200e\u200fb", "x\ufe0f", "\u2764\ufe0e", "a\u034fb", "\u061c", "\u180e", "a\u2028b", "a\u0085b", "a\x7fb", "a\x01b", "a\rb", " lead", "trail ", "  ", "\u3000", "a\u2009b", "\U000e0001", "\U0001f468\u200d\U0001f469",
+		// line breaks are characters too: print still adds exactly one newline of its own
+		"heading\n", "\n", "\n\n", "a\nb\n\n", "x\r\n", "\nlead", "mid\ndle", "total: 42\n"}
 	for _, s := range strs {
 		if strings.ContainsAny(s, "\"") {
 			continue
 		}
 		q := `"` + s + `"`
+		// a ধরি declaration may not span lines: a text containing a line break is assigned instead
+		decl := func(name, val string) string {
+			if strings.Contains(val, "\n") {
+				return VarNil(name) + " " + name + " = " + val + ";"
+			}
+			return Var(name, val)
+		}
 		progs := []string{
 			Print(q),
-			Lines(Var("s", q), Print("s"), Print(`"" + s`), Print(`s + ""`)),
+			Lines(decl("s", q), Print("s"), Print(`"" + s`), Print(`s + ""`)),
 			Print("[" + q + "]"),
 			Print("[" + q + ", " + q + ", 1]"),
 			Print("{k: " + q + "}"),
@@ -192,13 +201,13 @@ func c15Run(c *Ctx) {
 			Print(BI("append", "["+q+"]", q)),
 			Print(BI("keys", "{"+"k"+": 1}")) + "\n" + Print(BI("values", "{k: "+q+"}")),
 			// the string held by a variable (initialised by the plain literal, by a declaration list, by assignment) and placed in containers afterwards
-			Lines(Var("s", q), Print("[s]"), Print("[s, s]"), Var("a", "[0, 0]"), "a[1] = s;", Print("a"), Print(BI("append", "[]", "s")), Print(BI("append", "[s]", "s", "1")), Var("o", "{}"), "o.j = s;", Print("o"), Print("{k: s}"), Print("[[s], {k: [s]}]"), Print(BI("values", "{k: s}"))),
-			Lines(K["var"]+" n = 1, s = "+q+", t = s;", Print("[s, t]"), Var("u", "nil"), "u = "+q+";", Print("[u]"), Fun("wrap", "x", " "+Ret("[x]")+" "), Print("wrap(s)"), Print("wrap("+q+")")),
+			Lines(decl("s", q), Print("[s]"), Print("[s, s]"), Var("a", "[0, 0]"), "a[1] = s;", Print("a"), Print(BI("append", "[]", "s")), Print(BI("append", "[s]", "s", "1")), Var("o", "{}"), "o.j = s;", Print("o"), Print("{k: s}"), Print("[[s], {k: [s]}]"), Print(BI("values", "{k: s}"))),
+			Lines(map[bool]string{false: K["var"] + " n = 1, s = " + q + ", t = s;", true: K["var"] + " n = 1, s, t; s = " + q + "; t = s;"}[strings.Contains(q, "\n")], Print("[s, t]"), Var("u", "nil"), "u = "+q+";", Print("[u]"), Fun("wrap", "x", " "+Ret("[x]")+" "), Print("wrap(s)"), Print("wrap("+q+")")),
 		}
 		for pi, p := range progs {
 			x := map[string]string{"placement": fmt.Sprint(pi)}
-			if pi == 1 {
-				x["triples"] = "1"
+			if pi == 1 && !strings.ContainsAny(s, "\n\r") {
+				x["triples"] = "1" // line-wise comparison of the three spellings: only for one-line texts
 			}
 			if c.Mine() {
 				c15Judge(c, &Case{Gen: "strings-placements", Src: p + "\n", X: x})
